@@ -194,12 +194,12 @@ def run(ctx):
         violation(ctx, "spec_%d.json" % ctx.seed, {"kind": "property-fails-on-implementation-or-model-disagrees", "why": fail[0][:3000], "count": len(fail), "all": [f[:300] for f in fail[:10]]})
     ctx.cov.update({"evaluations": nstruct + ntab + compiled, "distinct_nontrivial": len(set(lines)),
                     "rule": "%d random schemas (enums, structs with nested structs / enums / fixed arrays / force_align, tables with every field kind, unions of "
-                            "table/struct/string, namespaces, required/deprecated): struct size/alignment/offsets and table field ids (incl. hidden union type ids) read "
+                            "table/struct/string, namespaces, required/deprecated/key/sorted, explicit ids in shuffled text order): struct size/alignment/offsets and table field ids (incl. hidden union type ids) read "
                             "from the compiler's binary schema vs the Lean model; for %d of them every generated header set (reader, builder, verifier, JSON parser, "
                             "JSON printer) is compiled as C11 with static assertions on the model's sizeof/_Alignof/offsetof." % (nsch, compiled),
                     "structs_compared": nstruct, "tables_compared": ntab, "header_sets_compiled": compiled,
                     "traces_validated_against_impl": nstruct + ntab, "correspondence_disagreements": len(fail), "spec_oracle_failures": len(fail)})
     ctx.samples = [{"struct": e[1], "size": e[2], "align": e[3], "offsets": e[4]} for e in expect[:3]] or ["<no structs>"]
-    ctx.notes = ["explicit id attributes, key/sorted attributes, includes and the stdout/outfile output shapes are not generated yet",
+    ctx.notes = ["header sets are generated as split files, split with -g, --outfile and --stdout -g (all four for the fixed schemas and every second sampled one); includes are not generated",
                  "'compiles' is an observation per sampled schema"]
     finish(ctx, ths)
